@@ -1,0 +1,26 @@
+//go:build verif
+
+package deployment
+
+import (
+	"context"
+
+	appsv1 "k8s.io/api/apps/v1"
+	clientset "k8s.io/client-go/kubernetes"
+	appslisters "k8s.io/client-go/listers/apps/v1"
+	"k8s.io/client-go/tools/record"
+)
+
+// NewControllerForVerif builds the per-deployment controller the way controllerFactory does.
+func NewControllerForVerif(cs clientset.Interface, dLister appslisters.DeploymentLister, rsLister appslisters.ReplicaSetLister, recorder record.EventRecorder, d *appsv1.Deployment) *DeploymentController {
+	f := &controllerFactory{client: cs, eventRecorder: recorder, dLister: dLister, rsLister: rsLister}
+	return f.NewController(d)
+}
+
+// SyncForVerif runs one syncDeployment followed by patchExtraStatus, as Reconcile does.
+func (dc *DeploymentController) SyncForVerif(d *appsv1.Deployment) error {
+	if err := dc.syncDeployment(context.Background(), d); err != nil {
+		return err
+	}
+	return dc.patchExtraStatus(d)
+}
